@@ -248,6 +248,7 @@ static WBXMLError parse_element(WBXMLEncoder *encoder, WBXMLTreeNode *node, WB_B
 static WBXMLError parse_element_end(WBXMLEncoder *encoder, WBXMLTreeNode *node, WB_BOOL has_content);
 static WBXMLError parse_attribute(WBXMLEncoder *encoder, WBXMLAttribute *attribute);
 static WBXMLError parse_text(WBXMLEncoder *encoder, WBXMLTreeNode *node);
+static WB_BOOL text_is_binary(WBXMLEncoder *encoder, WBXMLTreeNode *node);
 static WBXMLError parse_cdata(WBXMLEncoder *encoder);
 static WBXMLError parse_pi(WBXMLEncoder *encoder, WBXMLTreeNode *node);
 static WBXMLError parse_tree(WBXMLEncoder *encoder, WBXMLTreeNode *node);
@@ -1325,6 +1326,31 @@ static WBXMLError parse_attribute(WBXMLEncoder *encoder, WBXMLAttribute *attribu
 
 
 /**
+ * @brief Is this text the content of an element that carries binary data ?
+ * @param encoder The WBXML Encoder
+ * @param node The text node
+ * @return TRUE if the element the text belongs to has the WBXML_TAG_OPTION_BINARY option
+ * @note 'current_tag' is only set while the FIRST child of an element is encoded (it is
+ *       reset after every node), so for the following children look at the parent element
+ */
+static WB_BOOL text_is_binary(WBXMLEncoder *encoder, WBXMLTreeNode *node)
+{
+    const WBXMLTagEntry *tag = encoder->current_tag;
+
+    if ((tag == NULL) &&
+        (node != NULL) && (node->parent != NULL) &&
+        (node->parent->type == WBXML_TREE_ELEMENT_NODE) &&
+        (node->parent->name != NULL) &&
+        (node->parent->name->type == WBXML_VALUE_TOKEN))
+    {
+        tag = node->parent->name->u.token;
+    }
+
+    return (WB_BOOL) ((tag != NULL) && (tag->options & WBXML_TAG_OPTION_BINARY));
+}
+
+
+/**
  * @brief Parse an XML Text
  * @param encoder The WBXML Encoder
  * @param node The text to parse
@@ -1336,8 +1362,7 @@ static WBXMLError parse_text(WBXMLEncoder *encoder, WBXMLTreeNode *node)
     
     /* Some elements should be transferred as opaque data */
     if (encoder->output_type == WBXML_ENCODER_OUTPUT_WBXML &&
-        encoder->current_tag != NULL &&
-        encoder->current_tag->options & WBXML_TAG_OPTION_BINARY)
+        text_is_binary(encoder, node))
     {
         return wbxml_encode_opaque(encoder, node->content);
     }
@@ -1345,7 +1370,7 @@ static WBXMLError parse_text(WBXMLEncoder *encoder, WBXMLTreeNode *node)
     /* Do not modify text inside a CDATA section */
     /* Do not modify text inside a BINARY section */
     if (!encoder->in_cdata &&
-        ! (encoder->current_tag != NULL && encoder->current_tag->options & WBXML_TAG_OPTION_BINARY)) {
+        ! text_is_binary(encoder, node)) {
         /* If Canonical Form: "Ignorable white space is considered significant and is treated equivalently to data" */
         if ((encoder->output_type != WBXML_ENCODER_OUTPUT_XML) || (encoder->xml_gen_type != WBXML_GEN_XML_CANONICAL)) {
             /* Ignore blank nodes */
@@ -4591,8 +4616,7 @@ static WBXMLError xml_encode_text(WBXMLEncoder *encoder, WBXMLTreeNode *node)
          * binary data that isn't necessary valid in XML, so return them in Base
          * 64.
          */
-        if (encoder->current_tag != NULL &&
-            encoder->current_tag->options & WBXML_TAG_OPTION_BINARY)
+        if (text_is_binary(encoder, node))
         {
             WBXMLError ret;
             if ((ret = wbxml_buffer_encode_base64(tmp)) != WBXML_OK) {
